@@ -19,6 +19,10 @@ SIMPORTS = ("From PKO Require Import Base Owner Api Phase ObjectSet Slices.\n"
 F_C14 = ("C14 sliced ObjectSet is torn down/archived before its slices are loaded: objects in slices are not deleted "
          "in order (deletion) or not at all (archival)")
 ID_ACTIVE = "C14 sliced ObjectSet rolls out or reports status differently from the same ObjectSet with the objects inline"
+ID_MISSING = ("C14 an ObjectSet whose referenced slice cannot be loaded is rolled out anyway "
+              "(member or phase objects written, or availability newly reported, without the slice's objects)")
+ID_FAULT = ("C14 a failed read of a referenced slice during teardown/archival is treated as 'slice gone': the ObjectSet is torn down "
+            "without the slice's objects (finalizer removed / Archived=True / members deleted out of order) instead of erroring")
 ID_NAMES = "C14 slice name reused for different content or a foreign controller, or an existing slice modified"
 ID_LOSSLESS = ("C14 the slices named by the stored deployment template do not decode to the phase's objects "
                "(a slice name was reused for different content)")
@@ -230,6 +234,18 @@ def gen_gc(seed, tier):
         {"cluster": True, "steps": [
             {"op": "deploy", "phases": [[0, 1]]}, {"op": "newset", "name": 1, "listed": 0}, {"op": "deploy", "phases": [[2]]},
             {"op": "delset", "name": 1}, {"op": "deploy", "phases": [[2]]}]},
+        # v1, v2 drops a slice, revision 1 is paused then archived (and later being deleted) but still exists, update to v3:
+        # the slice dropped by v2 is still referenced by the archived revision
+        {"cluster": False, "steps": [
+            {"op": "deploy", "phases": [[0, 1]]}, {"op": "newset", "name": 1, "listed": 0},
+            {"op": "deploy", "phases": [[0, 2]]}, {"op": "newset", "name": 2, "listed": 0},
+            {"op": "setlife", "name": 1, "life": 1}, {"op": "deploy", "phases": [[0, 2]]},
+            {"op": "setlife", "name": 1, "life": 2}, {"op": "deploy", "phases": [[0, 5]]},
+            {"op": "setlife", "name": 1, "life": 2, "gone": True}, {"op": "deploy", "phases": [[0, 5]]},
+            {"op": "delset", "name": 1}, {"op": "deploy", "phases": [[0, 5]]}]},
+        {"cluster": True, "steps": [
+            {"op": "deploy", "phases": [[0, 1]]}, {"op": "newset", "name": 1, "listed": 0, "life": 2},
+            {"op": "deploy", "phases": [[2]]}, {"op": "deploy", "phases": [[2]]}]},
         # an update that keeps the objects and changes their manifests (0 -> 3) while a slice with the old manifests,
         # controlled by the deployment, sits under the name of the new content: the state a hash collision produces
         {"cluster": False, "steps": [
@@ -256,12 +272,16 @@ def gen_gc(seed, tier):
         for _ in range(r.choice([2, 3, 4, 5, 6, 8])):
             x = r.random()
             if x < 0.3:
-                steps.append({"op": "newset", "name": nset, "listed": r.choice([0, 0, 0, 0, 1, 2])})
+                steps.append({"op": "newset", "name": nset, "listed": r.choice([0, 0, 0, 0, 1, 2]),
+                              "life": r.choice([0, 0, 0, 1, 2, 2]), "gone": r.random() < 0.1})
                 sets.append(nset)
                 nset += 1
-            elif x < 0.45 and sets:
+            elif x < 0.4 and sets:
+                # older revisions get paused, archived, deleted-but-still-there
+                steps.append({"op": "setlife", "name": r.choice(sets), "life": r.choice([1, 2, 2, 2]), "gone": r.random() < 0.2})
+            elif x < 0.5 and sets:
                 steps.append({"op": "delset", "name": sets.pop(r.randrange(len(sets)))})
-            elif x < 0.6:
+            elif x < 0.62:
                 c = r.randrange(k)
                 st = {"op": "slice", "at": [c, r.choice([0, 0, 1, 2])], "label": r.choice([0, 0, 1, 2]), "ctrl": r.choice([0, 1, 1, 2])}
                 if r.random() < 0.6:
@@ -324,8 +344,11 @@ def gc_stage(run, scs):
         ndel = sum(1 for q in o["requests"] if q["verb"] == "delete")
         nref = len({n for s in o["sets"] if s["listed"] for ph in s["refs"] for n in ph} - {n for ph in o["template"] for n in ph})
         if o["before"]:
+            tn = {n for ph in o["template"] for n in ph}
+            held = tuple(sorted({(s["life"] or "Active") + ("/deleting" if s["gone"] else "") for s in o["sets"] if s["listed"]
+                                 and any(n not in tn for ph in s["refs"] for n in ph)}))
             run.classes.add(("gc", min(ndel, 3), min(nref, 3), sum(1 for s in o["sets"] if not s["listed"]) > 0,
-                             sum(1 for s in o["before"] if not s["labelled"]) > 0))
+                             sum(1 for s in o["before"] if not s["labelled"]) > 0, held))
         agree, mon, hmon = r
         if not hmon:
             run.violation(ID_LOSSLESS, {"scenario": sc, "step": o["step"], "impl": o}, True)
@@ -342,7 +365,7 @@ def gc_stage(run, scs):
 DEP_REF = [5, 3, 30, 1]      # the ObjectDeployment controlling the slices
 
 
-def slice_twin(r, sc):
+def slice_twin(r, sc, p_drop=0.12, p_fault=0.4):
     """Moves a random subset of each phase's objects of the target into 1-2 slices. Returns the scenario pair."""
     t = sc["target"]
     sliced = copy.deepcopy(sc)
@@ -350,7 +373,7 @@ def slice_twin(r, sc):
     ts = [s for s in sliced["sets"] if (s["kind"], s["ns"], s["name"]) == (t["kind"], t["ns"], t["name"])][0]
     ti = [s for s in inline["sets"] if (s["kind"], s["ns"], s["name"]) == (t["kind"], t["ns"], t["name"])][0]
     slices, refs, nxt = [], [], 70
-    drop = r.random() < 0.05
+    drop = r.random() < p_drop
     for pi, ph in enumerate(ts["phases"]):
         objs = ph["objects"]
         x = r.random()
@@ -390,6 +413,11 @@ def slice_twin(r, sc):
     sliced["refs"] = [{"kind": t["kind"], "ns": t["ns"], "name": t["name"], "slices": refs}]
     sliced["slices"] = sorted(slices, key=lambda s: (s["ns"], s["name"]))
     sliced["next_srv"] = 40
+    # a failing read of a slice while a deleted / archived ObjectSet is torn down (only the teardown handler's reads are
+    # scripted in the model): any index, also beyond the last read
+    nreads = sum(len(x) for x in refs)
+    if (ts["deleting"] or ts["life"] == 2) and nreads and r.random() < p_fault:
+        sliced["slice_fault"] = {"read": r.randrange(nreads + 1), "kind": r.choice(["err", "timeout", "gone", "neterr", "neterr"])}
     return {"sliced": sliced, "inline": inline, "missing": missing is not None}
 
 
@@ -445,6 +473,38 @@ def witness_pair(archived=False):
     return {"sliced": sliced, "inline": inline, "missing": False}
 
 
+def fault_witnesses():
+    out = []
+    for archived in (False, True):
+        for kind in ("err", "timeout", "gone", "neterr"):
+            p = witness_pair(archived)
+            p["sliced"]["slice_fault"] = {"read": 0, "kind": kind}
+            out.append(p)
+    return out
+
+
+def missing_witnesses():
+    """Active ObjectSet, phase 1 lives entirely in a slice that does not exist (never created / deleted by a third party),
+    phase 2 is inline: nothing of phase 2 may be written and Available must not be claimed."""
+    out = []
+    for new in (False, True):
+        inline = copy.deepcopy(WITNESS)
+        t = inline["sets"][0]
+        t["deleting"] = False
+        t["phases"] = [{"name": 1, "class": False, "objects": []},
+                       {"name": 2, "class": False, "objects": [pl.mk_pobj(1, 0, 2)]}]
+        t["ctrlof"] = []
+        inline["store"] = []
+        if new:
+            t["revision"], t["fin"] = 0, False
+        sliced = copy.deepcopy(inline)
+        sliced["refs"] = [{"kind": 1, "ns": 1, "name": 10, "slices": [[7], []]}]
+        sliced["slices"] = []
+        sliced["next_srv"] = 4
+        out.append({"sliced": sliced, "inline": inline, "missing": True})
+    return out
+
+
 def c_slice(s):
     return "((%d, %d), Build_slice %s %s %d)" % (s["ns"], s["name"], cL([pl.c_pobj(o) for o in s["objects"]]),
                                                  cL([pl.c_ref(x) for x in s["owners"]]), s["rv"])
@@ -463,10 +523,12 @@ def x_term(pair, obs, fixed):
     sc, so, io = pair["sliced"], obs["sliced"], obs["inline"]
     t = sc["target"]
     refs = cL([cP(cN(x["kind"]), cN(x["ns"]), cN(x["name"]), cL([cL([cN(n) for n in ph]) for ph in x["slices"]])) for x in sc["refs"]])
-    return ("(Build_xcase %s %s %s %d %d %s %s %s %s %s %d %d %d %d %s %s %s %s %s %d %d %s %d %s %s %s %s %s %d %d)" % (
+    flt = sc.get("slice_fault")
+    return ("(Build_xcase %s %s %s %d %d %s %s %s %s %s %d %d %d %d %s %s %s %s %s %s %d %d %s %d %s %s %s %s %s %d %d)" % (
         cB(fixed), cB(sc["force"]), pl.c_store(sc["store"]), sc["next_rv"], sc["next_uid"], cL([sl.c_set(s) for s in sc["sets"]]),
         cL([sl.c_osphase(p) for p in sc.get("phases", [])]), sl.c_nss(sc.get("nss", [])),
         refs, cL([c_slice(s) for s in sc["slices"]]), sc["next_srv"], t["kind"], t["ns"], t["name"],
+        cO(None if flt is None else cN(flt["read"])),
         sl.RES[so["res"]], cL([c_xev(e) for e in so["events"]]), pl.c_store(so["post"]), cL([sl.c_set(s) for s in so["sets"]]),
         cL([sl.c_osphase(p) for p in so["phases"]]),
         so["next_rv"], so["next_uid"], cL([c_slice(s) for s in so["slices"]]), so["next_srv"],
@@ -486,42 +548,48 @@ def detect_fixed(run):
     return any((e.get("set") or {}).get("kind") == "member" for e in evs)
 
 
-def sliced_stage(run, pairs, fixed):
+def sliced_stage(run, pairs, fixed, ids=None):
+    ids = ids or {}
     outs = vlib.run_harness("slicedset", [{"sliced": p["sliced"], "inline": p["inline"]} for p in pairs], par=8)
     terms, idx = [], []
     for i, (p, o) in enumerate(zip(pairs, outs)):
         if "obs" not in o:
-            run.violation("corr:C14/slicedset harness error or panic", {"correspondence": "harness", "scenario": p, "out": o}, False)
+            run.violation("corr:%s/slicedset harness error or panic" % run.pid, {"correspondence": "harness", "scenario": p, "out": o}, False)
             continue
         try:
             terms.append(x_term(p, o["obs"], fixed))
             idx.append(i)
         except pl.Unrepresentable as e:
-            run.violation("corr:C14/slicedset observation outside the model's event language: %s" % e,
+            run.violation("corr:%s/slicedset observation outside the model's event language: %s" % (run.pid, e),
                           {"correspondence": "C14SliceCorr event language", "scenario": p, "impl": o["obs"]}, False)
-    res, logs = vlib.judge_cases("C14", SIMPORTS, "xjudge", terms, 4, shard=150, tag="sliced")
+    res, logs = vlib.judge_cases(run.pid, SIMPORTS, "xjudge", terms, 6, shard=150, tag="sliced")
     for l in logs:
-        run.violation("corr:C14/coq-eval", {"correspondence": "coq evaluation failed (slicedset)", "log": l}, False)
+        run.violation("corr:%s/coq-eval" % run.pid, {"correspondence": "coq evaluation failed (slicedset)", "log": l}, False)
     for i, r in zip(idx, res):
         if r is None:
             continue
         p, obs = pairs[i], outs[i]["obs"]
-        a_sliced, a_inline, mon, going = r
+        a_sliced, a_inline, mon, going, mmon, fmon = r
         t = p["sliced"]["target"]
         ts = [s for s in p["sliced"]["sets"] if s["name"] == t["name"] and s["kind"] == t["kind"]][0]
         nsl = sum(len(x) for x in p["sliced"]["refs"][0]["slices"])
         if nsl:
-            run.classes.add(("sliced", ts["life"], ts["deleting"], ts["fin"], p["missing"], obs["sliced"]["res"],
+            run.classes.add(("sliced", ts["life"], ts["deleting"], ts["fin"], p["missing"], (p["sliced"].get("slice_fault") or {}).get("kind"),
+                             obs["sliced"]["res"],
                              tuple(("slice" if e.get("slice") else e["set"]["kind"] + str((e["set"].get("member") or {}).get("verb", "")))
                                    for e in obs["sliced"]["events"])))
         replay = {"scenario": {"sliced": p["sliced"], "inline": p["inline"], "missing": p["missing"]}, "impl": obs}
+        if not mmon:
+            run.violation(ids.get("missing", ID_MISSING), replay, True)
+        if not fmon:
+            run.violation(ids.get("fault", ID_FAULT), replay, True)
         if not mon:
             run.violation(F_C14 if going else ID_ACTIVE, replay, True)
-        elif not a_sliced:
-            run.violation("corr:C14/sliced ObjectSet pass: model (%s) and implementation differ" % ("sliced_pass_fixed" if fixed else "sliced_pass"),
+        elif not a_sliced and mmon and fmon:
+            run.violation("corr:%s/sliced ObjectSet pass: model (%s) and implementation differ" % (run.pid, "sliced_pass_fixed" if fixed else "sliced_pass"),
                           dict(replay, correspondence="C14SliceCorr.xagree_sliced"), False)
         elif not a_inline:
-            run.violation("corr:C14/inline twin: ObjectSet controller model and implementation differ",
+            run.violation("corr:%s/inline twin: ObjectSet controller model and implementation differ" % run.pid,
                           dict(replay, correspondence="SetCorr.agree on inline_of"), False)
     return len(terms), [{"scenario": {"refs": pairs[i]["sliced"]["refs"], "slices": pairs[i]["sliced"]["slices"],
                                       "target": [s for s in pairs[i]["sliced"]["sets"] if s["name"] == 10][0]},
@@ -540,7 +608,34 @@ def gen_pairs(seed, tier):
             base.append(setgen.gen_scenario(rr, mode))
     # a fifth of the scenarios with delegated phases (mixed phase lists)
     base = [delegate_some(r, sc) if r.random() < 0.2 else sc for sc in base]
-    return [witness_pair(), witness_pair(True)] + [slice_twin(r, sc) for sc in base]
+    return [witness_pair(), witness_pair(True)] + fault_witnesses() + missing_witnesses() + [slice_twin(r, sc) for sc in base]
+
+
+def sliced_extra(run, tier, seed, which, identity, replay=None):
+    """Additive stage for C03 (which="missing": a slice of an earlier phase cannot be loaded in an active pass) and C04
+    (which="fault": a slice read fails while a deleted / archived ObjectSet is torn down): the sliced twin machinery of
+    C14, focused on that clause and reported under the caller's identity. Judged by C14SliceCorr.mmonitor / fmonitor
+    (sound for Slices.sliced_pass / sliced_pass_faulty: props/C14.v)."""
+    fixed = detect_fixed(run)
+    if fixed is None:
+        return 0
+    if replay:
+        sc = json.load(open(replay))["replay"]["scenario"]
+        sc.setdefault("missing", False)
+        pairs = [sc]
+    else:
+        r = vlib.rng(seed, "%s/sliced" % run.pid)
+        n = 150 if tier == "quick" else 2500
+        if which == "missing":
+            modes, kw, pairs = ["active", "active", "active", "new", "paused"], {"p_drop": 1.0, "p_fault": 0.0}, missing_witnesses()
+        else:
+            modes, kw, pairs = ["deleting", "deleting", "archived"], {"p_drop": 0.05, "p_fault": 1.0}, fault_witnesses()
+        pairs = pairs + [slice_twin(r, setgen.gen_scenario(r, r.choice(modes)), **kw) for _ in range(n)]
+    n, _ = sliced_stage(run, pairs, fixed, {which: identity})
+    run.cov["evaluations"] += n
+    run.cov["rule"] += ("; sliced twins (C14 machinery): %s" % ("active ObjectSets with a referenced slice missing" if which == "missing"
+                        else "deleting / archived ObjectSets with a failing slice read (500, timeout, 410, transport error)"))
+    return n
 
 
 # ------------------------------------------------------------------ driver
@@ -556,7 +651,10 @@ def check(run, tier, seed, replay=None):
         "sliced ObjectSet: pass-level atomicity with cache reads as fresh as the store; API-server semantics of coq/theories/Api.v / ObjectSet.v as "
         "implemented by the harness's recording server; resourceVersions are opaque, ObjectSlices draw theirs from a counter of their own in model "
         "and harness so that the inline and the sliced run can be compared by equality; the equivalence is stated for ObjectSets whose referenced "
-        "slices all exist (a missing slice is compared with the model only)",
+        "slices all exist; a referenced slice that is missing is judged by the missing-slice clause (no rollout, no new claim of availability)",
+        "read faults: only Gets of ObjectSlices issued while a deleted / archived ObjectSet is torn down are scripted (one failing read per pass: "
+        "500, ServerTimeout, 410 Gone, transport error without API status); every error other than NotFound must abort the pass",
+        "slice GC holders: every ObjectSet the collector lists counts, whatever its lifecycle state (active, paused, archived, being deleted)",
     ]
     vlib.std_proof_stage(run, "C14")
     ok, blog = vlib.build_harness()
